@@ -39,9 +39,14 @@ type Scenario struct {
 	Shape string   `json:"shape"`
 }
 
-const rule = "cases = (directory tree with nesting, hidden files and directories, known / unknown / upper-case / missing extensions, same base name with different types, pre-existing .bak neighbours, symlinks to files, empty files and files the minifier rejects, different permission bits) x (invocation shape: file->file, file->stdout, stdin->stdout/file, files->dir/, -r dir and -r dir/ mirroring, in-place file and in-place tree, bundles to file and stdout, --sync, --match/--include/--exclude globs and regexps, --type override, -a, -q/-v, minifier option flags); oracle = reference model of cmd/minify/README.md computing the expected tree, stdout and exit status (content = library output for the type or the original bytes when the library fails), compared with full before/after snapshots (path, kind, bytes, permission bits, link target) of the working directory AND its parent; distinct by hash; non-trivial = >= 2 files selected, or in-place, or a failing file, or a filter that excludes something, or sync copies"
+const rule = "cases = (directory tree with nesting, hidden files and directories, known (incl. the seven HTML template types php asp ejs tmpl gohtml mustache handlebars, whose model is the HTML minifier with that type's delimiters) / unknown / upper-case / missing extensions, same base name with different types, pre-existing .bak neighbours, symlinks to files, empty files and files the minifier rejects, different permission bits) x (invocation shape: file->file, file->stdout, stdin->stdout/file, files->dir/, -r dir and -r dir/ mirroring, in-place file and in-place tree, bundles to file and stdout, --sync, --match/--include/--exclude globs and regexps, --type override, -a, -q/-v, minifier option flags); oracle = reference model of cmd/minify/README.md computing the expected tree, stdout and exit status (content = library output for the type or the original bytes when the library fails), compared with full before/after snapshots (path, kind, bytes, permission bits, link target) of the working directory AND its parent; distinct by hash; non-trivial = >= 2 files selected, or in-place, or a failing file, or a filter that excludes something, or sync copies"
 
-var extMap = map[string]string{"css": "text/css", "htm": "text/html", "html": "text/html", "js": "application/javascript", "json": "application/json", "mjs": "application/javascript", "rss": "application/rss+xml", "svg": "image/svg+xml", "webmanifest": "application/manifest+json", "xhtml": "application/xhtml+xml", "xml": "text/xml"}
+var extMap = map[string]string{"css": "text/css", "htm": "text/html", "html": "text/html", "js": "application/javascript", "json": "application/json", "mjs": "application/javascript", "rss": "application/rss+xml", "svg": "image/svg+xml", "webmanifest": "application/manifest+json", "xhtml": "application/xhtml+xml", "xml": "text/xml",
+	"asp": "text/asp", "ejs": "text/x-ejs-template", "gohtml": "text/x-go-template", "handlebars": "text/x-handlebars-template", "mustache": "text/x-mustache-template", "php": "application/x-httpd-php", "tmpl": "text/x-go-template"}
+
+// the HTML template types: HTML with the template code between these delimiters kept as it is, all --html-* options
+// apply to them (README: "template languages")
+var templateDelims = map[string][2]string{"text/asp": {"<%", "%>"}, "text/x-ejs-template": {"<%", "%>"}, "application/x-httpd-php": {"<?", "?>"}, "text/x-go-template": {"{{", "}}"}, "text/x-mustache-template": {"{{", "}}"}, "text/x-handlebars-template": {"{{", "}}"}}
 
 // ---------------------------------------------------------------------------
 // reference model
@@ -99,6 +104,14 @@ func parseArgs(args []string) (f flags, err error) {
 			f.opts.HTMLKeepEndTags = true
 		case "--html-keep-whitespace":
 			f.opts.HTMLKeepWhitespace = true
+		case "--html-keep-comments":
+			f.opts.HTMLKeepComments = true
+		case "--html-keep-quotes":
+			f.opts.HTMLKeepQuotes = true
+		case "--html-keep-document-tags":
+			f.opts.HTMLKeepDocTags = true
+		case "--html-keep-default-attrvals":
+			f.opts.HTMLKeepDefaultAttrs = true
 		case "--js-keep-var-names":
 			f.opts.JSKeepVars = true
 		case "--json-keep-numbers":
@@ -179,6 +192,10 @@ func (s fsState) resolve(p string) (File, string, bool) {
 }
 
 func libMinify(mt string, in []byte, o mk.Options) ([]byte, error) {
+	if d, ok := templateDelims[mt]; ok {
+		o.HTMLTemplateDelims = d
+		mt = "text/html"
+	}
 	m := mk.Full(o.Build())
 	return mk.RunM(m, mt, append([]byte{}, in...))
 }
@@ -823,6 +840,13 @@ var contents = map[string][]string{
 	"rss":         {"<rss><channel>  <title>t</title> </channel></rss>"},
 	"xhtml":       {"<?xml version=\"1.0\"?>\n<html xmlns=\"http://www.w3.org/1999/xhtml\">\n  <body> <p> a </p> </body>\n</html>\n"},
 	"webmanifest": {"{ \"name\" : \"app\" , \"icons\" : [ ] }\n"},
+	"php":         {"<html><body><p class=\"a\"> a  <?php echo  $x ; ?>  b </p><!-- c -->\n<ul> <li> one </li> </ul><script type=\"text/javascript\"> var x = 1 ; </script></body></html>\n", "<?php  if ( $a ) { ?> <b> x </b> <?php } ?>"},
+	"asp":         {"<p id=\"p\"> a  <%= x  %>  b </p> <!-- c --> <form method=\"get\"> <input type=\"text\"> </form>"},
+	"ejs":         {"<ul> <% items.forEach( function ( i ) { %> <li> <%= i  %> </li> <% } ) %> </ul><!-- c -->"},
+	"tmpl":        {"<html><head><title> {{ .Title }} </title></head><body> <p class=\"x\"> {{ if .A }}  a  {{ end }} </p> <!-- c --> </body></html>"},
+	"gohtml":      {"<div class=\"d\"> {{ range .Items }} <span> {{ . }} </span> {{ end }} </div> <!-- c -->"},
+	"mustache":    {"<p> {{ name }}  </p> <!-- c --> <ul> <li> {{#items}} x {{/items}} </li> </ul>"},
+	"handlebars":  {"<div id=\"e\"> {{#each list}}  <i> {{this}} </i>  {{/each}} </div> <!-- c -->"},
 	"txt":         {"plain  text\n", ""},
 	"":            {"no extension\n"},
 	"JS":          {"var upper = 1 ;"},
@@ -845,7 +869,7 @@ func genFiles(t *rapid.T) []File {
 		}
 	}
 	n := rapid.IntRange(1, 9).Draw(t, "nfiles")
-	exts := []string{"js", "css", "html", "json", "svg", "xml", "txt", "mjs", "htm", "rss", "", "JS", "md", "xhtml", "webmanifest"}
+	exts := []string{"js", "css", "html", "json", "svg", "xml", "txt", "mjs", "htm", "rss", "", "JS", "md", "xhtml", "webmanifest", "php", "tmpl", "asp", "ejs", "gohtml", "mustache", "handlebars"}
 	for i := 0; i < n; i++ {
 		dir := rapid.SampledFrom([]string{".", ".", "src", "src", "src/sub", "src/.git", "lib", "src/sub/deep", "assets"}).Draw(t, "dir")
 		e := rapid.SampledFrom(exts).Draw(t, "ext")
@@ -931,8 +955,8 @@ func genScenario(t *rapid.T) Scenario {
 		} else if rapid.IntRange(0, 3).Draw(t, "verbose") == 0 {
 			args = append(args, "-v")
 		}
-		if rapid.IntRange(0, 5).Draw(t, "optflag") == 0 {
-			args = append(args, rapid.SampledFrom([]string{"--html-keep-end-tags", "--html-keep-whitespace", "--js-keep-var-names", "--json-keep-numbers"}).Draw(t, "flag"))
+		if rapid.IntRange(0, 3).Draw(t, "optflag") == 0 {
+			args = append(args, rapid.SampledFrom([]string{"--html-keep-end-tags", "--html-keep-whitespace", "--js-keep-var-names", "--json-keep-numbers", "--html-keep-comments", "--html-keep-quotes", "--html-keep-document-tags", "--html-keep-default-attrvals"}).Draw(t, "flag"))
 		}
 	}
 	needDir := func() bool {
